@@ -931,8 +931,8 @@ def modularity_finetune_und_sign(W, qtype='sta', gamma=1, ci=None, seed=None):
     _, ci = np.unique(ci, return_inverse=True)
     ci += 1
     m = np.tile(ci, (n, 1))
-    q0 = (W0 - np.outer(Kn0, Kn0) / s0) * (m == m.T)
-    q1 = (W1 - np.outer(Kn1, Kn1) / s1) * (m == m.T)
+    q0 = (W0 - gamma * np.outer(Kn0, Kn0) / s0) * (m == m.T)
+    q1 = (W1 - gamma * np.outer(Kn1, Kn1) / s1) * (m == m.T)
     q = d0 * np.sum(q0) - d1 * np.sum(q1)
 
     return ci, q
@@ -1516,8 +1516,8 @@ def modularity_probtune_und_sign(W, qtype='sta', gamma=1, ci=None, p=.45,
     _, ci = np.unique(ci, return_inverse=True)
     ci += 1
     m = np.tile(ci, (n, 1))
-    q0 = (W0 - np.outer(Kn0, Kn0) / s0) * (m == m.T)
-    q1 = (W1 - np.outer(Kn1, Kn1) / s1) * (m == m.T)
+    q0 = (W0 - gamma * np.outer(Kn0, Kn0) / s0) * (m == m.T)
+    q1 = (W1 - gamma * np.outer(Kn1, Kn1) / s1) * (m == m.T)
     q = d0 * np.sum(q0) - d1 * np.sum(q1)
 
     return ci, q
